@@ -585,7 +585,7 @@ let rec fc_expr imm = function
   | [] -> (i, [])
   | x :: xs ->
     let (i1, c1) = fc_expr i x in let (i2, c2) = go i1 xs in (i2, (app c1 c2))
-  in go imm es
+  in go false es
 | EParen x -> fc_expr imm x
 | EAutocoerce x -> fc_expr imm x
 | ECast x -> fc_expr imm x
